@@ -38,6 +38,14 @@ pub proof fn verif_vacuity_c10_typed_must_fail(g: GenericPurl<PackageType>, t1: 
         PackageType::finish_rel(g.package_type, g.parts, t1, p1, fr), build_post::<PackageType>(t1, p1, fr, r),
     ensures false
 { }
+pub proof fn verif_vacuity_c09_typed_must_fail(t0: PackageType, p0: PurlParts, t1: PackageType, p1: PurlParts, fr: Result<(), PackageError>,
+                               g: GenericPurl<PackageType>, r2: Result<GenericPurl<PackageType>, PackageError>)
+    requires
+        wf_seq(p0.qualifiers.qualifiers@),
+        PackageType::finish_rel(t0, p0, t1, p1, fr), build_post::<PackageType>(t1, p1, fr, Ok::<GenericPurl<PackageType>, PackageError>(g)),
+        parse_post::<PackageType>(canon_spec(g.package_type.type_text(), g.parts), r2),
+    ensures false
+{ }
 ''',
     units=_prelude + [
         dict(id='theory.segs_lemmas', kind='raw', text=_c.theory_text('segs_lemmas.rs')),
@@ -48,6 +56,8 @@ pub proof fn verif_vacuity_c10_typed_must_fail(g: GenericPurl<PackageType>, t1: 
         dict(id='theory.inverse2', kind='raw', text=_c.lemmas_contract_only(_c.theory_text('inverse2.rs'), 'inverse')),
         dict(id='theory.inverse3', kind='raw', text=_c.lemmas_contract_only(_c.theory_text('inverse3.rs'), 'inverse')),
         dict(id='theory.inverse4', kind='raw', text=_c.lemmas_contract_only(_c.theory_text('inverse4.rs'), 'inverse')),
+        dict(id='theory.inverse5', kind='raw', text=_c.lemmas_contract_only(_c.theory_text('inverse5.rs'), 'inverse')),
+        dict(id='theory.inverse6', kind='raw', text=_c.lemmas_contract_only(_c.theory_text('inverse6.rs'), 'inverse')),
         dict(id='theory.ckfix', kind='raw', text=_c.lemmas_contract_only(_c.theory_text('ckfix.rs'), 'ckfix')),
         dict(id='theory.c01', kind='raw', text=_c.theory_text('c01.rs')),
         # the PackageType instance: the enum, its error, the rule vocabulary and idempotence lemmas, the impl of PurlShape (contracts proved in group pkgtype)
@@ -67,5 +77,6 @@ impl vstd::std_specs::convert::FromSpecImpl<UnsupportedPackageType> for PackageE
         _c.contract_only('pkgtype', 'U-ptfin.finish'),
         dict(id='theory.pypi_idem', kind='raw', text=_c.theory_text('pypi_idem.rs')),
         dict(id='theory.c01_typed', kind='raw', text=_c.theory_text('c01_typed.rs')),
+        dict(id='theory.c09', kind='raw', text=_c.theory_text('c09.rs')),
     ],
 )
